@@ -149,6 +149,10 @@ ben("b13-skip-identical-rewrite", CLI, '            with open(output_path, "w", 
     '            _new = tinycss2.serialize(rules).encode("utf-8")\n            _old = None\n            if output_path.is_file():\n                with open(output_path, "rb") as f:\n                    _old = f.read()\n            if _old != _new:\n                with open(output_path, "wb") as f:\n                    f.write(_new)',
     "the output is left alone when it already holds exactly these BYTES (the existing output is read, but only to compare)")
 
+ben("b14-report-skip-identical-rewrite", VIS, '    with open(output_path, "w", encoding="utf-8") as f:\n        f.write(html_content)\n\n    return os.path.abspath(output_path)',
+    '    _new = html_content.encode("utf-8")\n    _old = None\n    try:\n        if os.path.isfile(output_path):\n            with open(output_path, "rb") as f:\n                _old = f.read()\n    except OSError:\n        _old = None\n    if _old != _new:\n        with open(output_path, "w", encoding="utf-8") as f:\n            f.write(html_content)\n\n    return os.path.abspath(output_path)',
+    "the API report is left alone when the file already holds exactly these bytes (compared as bytes: no decoding, descriptor closed)")
+
 
 def run_benign(m, budget):
     top = f"/dev/shm/cmverif-ben-{os.getpid()}-{m['id']}"
